@@ -608,6 +608,40 @@ def v_reward_with_top_bit_amount(world, pid, rng):
     return world.mine(blk, fix_merkle=True), {"reward"}, set()
 
 
+def v_reward_over_fees_of_several_transactions(world, pid, rng):
+    """two to five ordinary transactions, and a reward that claims more than subsidy plus the sum of THEIR fees (by one
+    unit, or by part of what the earlier transactions pay out)"""
+    txs = []
+    used = set()
+    for _ in range(rng.choice([2, 2, 3, 5])):
+        t = world.make_rtx(pid, rng, exclude=used, fee=rng.choice([0, 1, 999, None]))
+        if t is None:
+            break
+        used.update(t.refs())
+        txs.append(t)
+    if len(txs) < 2:
+        return None
+    h = world.chain.blocks[pid].height + 1
+    earlier_out = sum(v for t in txs[:-1] for v, _k in t.outputs)
+    extra = rng.choice([1, 1, max(1, earlier_out // 2), earlier_out])
+    return finish(world, pid, txs, rng, reward=ref.subsidy(h) + _fees(world, pid, txs) + extra), {"reward"}, set()
+
+
+def v_reward_exact_with_several_transactions(world, pid, rng):
+    txs = []
+    used = set()
+    for _ in range(rng.choice([2, 3, 5])):
+        t = world.make_rtx(pid, rng, exclude=used, fee=rng.choice([0, 1, 999, None]))
+        if t is None:
+            break
+        used.update(t.refs())
+        txs.append(t)
+    if len(txs) < 2:
+        return None
+    h = world.chain.blocks[pid].height + 1
+    return finish(world, pid, txs, rng, reward=ref.subsidy(h) + _fees(world, pid, txs)), set(), set()
+
+
 def v_output_spent_by_two_transactions(world, pid, rng):
     """value created by spending one output twice inside a block: two different, correctly signed transactions on the same
     output (sometimes the very same transaction listed twice), the reward claiming the fees of both"""
@@ -639,6 +673,8 @@ C02_CLASSES = {
     "reward-without-coinbase-data": v_reward_without_coinbase_data, "reward-split-outputs": v_reward_split_outputs,
     "valid-spend": c_valid_spend, "valid-multi": c_valid_multi, "reward-with-top-bit-amount": v_reward_with_top_bit_amount,
     "output-spent-by-two-transactions": v_output_spent_by_two_transactions,
+    "reward-over-fees-of-several-transactions": v_reward_over_fees_of_several_transactions,
+    "reward-exactly-at-bound-several-transactions": v_reward_exact_with_several_transactions,
 }
 
 
